@@ -90,15 +90,13 @@ Proof. reflexivity. Qed.
 
 (* ---------- interleaved semantics (Model/Conc.v): every schedule of suspended requests, disconnects, time-outs ---------- *)
 From Coq Require Import List NArith.
-From NW Require Import Model.Conc Proofs.ConcDefs Proofs.ConcEv Proofs.ConcInv Proofs.ConcSmall Proofs.ConcSource Gen.ConcFlags.
+From NW Require Import Model.Conc Proofs.ConcDefs Proofs.ConcEv Proofs.ConcInv Proofs.ConcSmall Proofs.ConcMore Proofs.ConcProgress Proofs.ConcSource Gen.ConcFlags.
 Import ListNotations.
 Local Open Scope N_scope.
 
 Theorem C02_source_segment_layout :
   forallb snd conc_source_shape = true.
 Proof. exact source_segment_layout. Qed.
-
-From NW Require Import Proofs.ConcMore.
 
 Theorem C02_conc_broadcast_complete :
   forall (cf : ccfg) (es : list ev) (t : tid) (ok : bool) (hint : user) (c : conn) (id : N),
@@ -113,6 +111,7 @@ Theorem C02_conc_broadcast_complete :
       In (t_me k) (members (objs (cg s) o)) /\
       (forall (u : user) (c' : conn),
        In u (members (objs (cg s) o)) ->
+       allowed (racl (objs (cg s) o)) u = true ->
        In c' (reg (cg s) u) ->
        c' <> c -> In (OMsg c' ch (t_me k) payload) (snd (cstep cf s (ERun t ok hint)))).
 Proof. exact conc_broadcast_complete. Qed.
